@@ -945,7 +945,35 @@ func c20probe(p *core.Prog, f *ssa.Function, v ssa.Value, depth int) string {
 						isPtr = true
 					}
 				}
-				if cmp, ok := core.AsCmp(n); ok && cmp.Op == token.EQL {
+				cmps := []core.Cmp{}
+				if cmp, ok := core.AsCmp(n); ok {
+					cmps = append(cmps, cmp)
+				}
+				// a predicate helper: true only where the comparison it returns holds
+				if call, ok := n.V.(*ssa.Call); ok && n.True {
+					if g := core.Callee(&call.Call); g != nil && p.InRepo(g) && len(g.Blocks) > 0 && g.Signature.Results().Len() == 1 {
+						var hc []core.Cmp
+						sound := true
+						for _, rcase := range core.ReturnCases(g) {
+							v := core.Resolve(rcase.Vals[0])
+							if k, isK := v.(*ssa.Const); isK && !isTrueConst(k) {
+								continue
+							}
+							if cmp, okC := core.AsCmp(core.Cond{V: v, True: true}); okC {
+								hc = append(hc, cmp)
+							} else {
+								sound = false
+							}
+						}
+						if sound && len(hc) == 1 {
+							cmps = append(cmps, hc[0])
+						}
+					}
+				}
+				for _, cmp := range cmps {
+					if cmp.Op != token.EQL {
+						continue
+					}
 					kx, ky := c20isKindCall(cmp.X), c20isKindCall(cmp.Y)
 					if kx && (ky || core.IsIntConst(cmp.Y, 25)) || ky && core.IsIntConst(cmp.X, 25) {
 						isStruct = true
